@@ -6,4 +6,4 @@ J=3
 if [ "$1" = "-j" ]; then J=$2; shift; shift; fi
 ids="$*"
 [ -z "$ids" ] && ids=$(ls seeded | sort)
-echo $ids | tr ' ' '\n' | xargs -P $J -I{} sh -c 'd={}; p=$(echo $d | sed "s/b$//"); out=$(tools/seedcheck.py $d --checks $p --shards 5 2>&1 | tail -1 | cut -c1-140); echo "$d $out"'
+echo $ids | tr ' ' '\n' | xargs -P $J -I{} sh -c 'd={}; p=$(echo $d | sed "s/[bc]$//"); out=$(tools/seedcheck.py $d --checks $p --shards 5 2>&1 | tail -1 | cut -c1-140); echo "$d $out"'
